@@ -11,7 +11,7 @@ from ..vloop import run_virtual
 from ..world import MemMessage, Router, World, key
 from ..pyparams import mk_params
 from ..clock import CLOCK
-from . import _mem
+from . import _mem, _rabbit
 
 RULE = ("(a) router worlds: 2-4 routers built by 3-14 declarations (names and queues drawn from small pools so that overrides, "
         "overrides that move a name to another queue, and shared queues are frequent) and inclusions, a worker made from 1-3 of "
@@ -304,6 +304,7 @@ def run(ctx: Ctx) -> Result:
     # (b) shared-queue histories
     hists = [gen_hist(rng, rng.randint(8, 40)) for _ in range(ctx.scale(250, 4000))]
     _mem.run_histories(ctx, res, "c11m", hists, WHICH, rng)
+    _rabbit.run_seq(ctx, res, "c11q", {"C11"}, "any", 80, 1500, rng)
     return res
 
 
